@@ -20,7 +20,10 @@ hit sets over the profiles a, b (equivalent), c; five rules of which several can
     detect_protoclusters_and_signatures (hmmsearch replaced by the scenario's hits) -> add_protocluster
     -> annotate_cds_features -> create_candidate_clusters -> create_regions -> GenBank text
     -> AntismashResults JSON text.
-Stages compared: detection-json, protoclusters, candidates, regions, genbank, json.
+Stages compared: detection-json, protoclusters, candidates, regions, unique-protoclusters (the order of
+Region.get_unique_protoclusters per region, with its crosses-origin flag), areas (that section of the JSON),
+genbank, json.  The "A" family feeds records with 2-3 equal-coordinate protoclusters of different products
+straight into the candidate/region/areas stages.  Children differ in hash seed AND in pre-allocated padding.
 
 Hit families ("T"): the tie-containing sets of the C13 families for refine_hmmscan_results,
 hmmer.remove_overlapping and filter_results.
@@ -41,7 +44,14 @@ RULE = ("P (pipeline scenarios): a 4-gene linear record and a 3-gene circular re
         "of which ra/rb/rab and rc/rac yield protoclusters with identical coordinates.  Each scenario runs "
         "detection -> protoclusters -> candidate clusters -> regions -> GenBank -> JSON in child processes with "
         "PYTHONHASHSEED 0..7 (thorough 0..15) and in-process under 4 (thorough 8) permutations of the iteration order "
-        "of every set built by `set(...)` in the anchored modules; the six stage dumps are compared byte-wise.  "
+        "of every set built by `set(...)` in the anchored modules; the eight stage dumps (detection-json, protoclusters, "
+        "candidates, regions, unique-protoclusters, areas, genbank, json) are compared byte-wise.  "
+        "A (areas): records whose protoclusters are given directly - 2-3 protoclusters of different products with "
+        "IDENTICAL coordinates (+ optionally one with other coordinates), linear and on a ring, in the middle, at the "
+        "edge, with the neighbourhood or the core across the origin, added in both orders (64 cases; thorough 128) - run "
+        "through candidate clusters -> regions -> Region.get_unique_protoclusters order -> 'areas' JSON -> GenBank -> "
+        "JSON under the same 8 (16) children and under 6 (24) set-order permutations.  Every child also differs in "
+        "memory layout: seed k pre-allocates k mod 8 batches of unrelated objects and a few more before each case.  "
         "T (hits kept): all sets of 2-3 hits of the C13 grids q3, q5 / h1 that contain a tie (equal start, equal "
         "score, identical coordinates) for refine_hmmscan_results (8 seeds; every iteration order of the per-protein "
         "set) and hmmer.remove_overlapping (8 seeds); filter_results on the C13 sets f0, f1, f2 with every slot "
